@@ -38,6 +38,16 @@ PROPS = {
         'not_decided': 'correctness of spanning_forest for unbounded sizes',
         'explanation': 'Verus: mov/store_temporary/restore_temporary contracts (proved, all placements). Bounded native contract check: all maps m,n<=5 (thorough) / <=4 (quick) x kinds x offsets x 3 backends + random larger maps; never counted as proved.',
     },
+    'C13': {
+        'units': ['x86_routine'],
+        'aux': ['native_prints'],
+        'level': 'other',
+        'claim': 'Prologue, epilogue and argument shuffle of the x86-64 routine are proved by Verus over the ISA model (callee-saved registers and rsp restored, result register untouched by the epilogue, stack-pointer alignment arithmetic, heap/free initialisation). The save/align/call/restore sequence around the print runtime and the whole routine skeleton (both backends) are checked by a bounded native contract check for 1..20 live variables x kind assignments x argument positions and 0..5 / 0..7 entry arguments, on machine models whose call destroys all caller-saved state and faults on a misaligned stack pointer.',
+        'note': 'The print sequence uses iterator adapters (.enumerate()) that Verus rejects; that part is bounded, not proved. Trusted: machine/call models (T1), calling-convention tables.',
+        'technique': 'Verus contracts on setup/cleanup/move_arguments + bounded native contract check of print_i64 and the routine skeleton under a clobbering call model',
+        'not_decided': 'unbounded proof of the save/restore loops (iterator adapters outside Verus)',
+        'explanation': 'Verus: x86-64 setup / cleanup / move_arguments / preamble (proved) + lemma_prologue_epilogue. Bounded: print_i64 call sequence for 1..20 live variables and whole-routine execution for every supported number of parameters on x86-64 and AArch64.',
+    },
     'C14': {
         'units': ['x86_code'],
         'aux': [],
